@@ -34,6 +34,8 @@ type Gen struct {
 	dicts int
 	// noQual marks paths the generator never references (reserved for Anon-only use)
 	noQual map[int]bool
+	// hostSalt prefixes fabricated hosts (fresh, never-seen paths per race-leg round)
+	hostSalt string
 }
 
 var fabBases = []string{"d", "D", "d-go", "go-d", "d.v2", "v2", "1d", "für", "if", "len", "fmt", "rand", "x", "err", "int", "pkg", "d1", "d0", "template", "d_"}
@@ -63,7 +65,7 @@ func (g *Gen) universe() {
 	seen := map[string]bool{}
 	nfab := g.cfg.NPaths - g.cfg.NStd
 	for tries := 0; len(g.paths) < nfab && tries < 100; tries++ {
-		p := g.r.Pick(fabHosts) + "/" + g.r.Pick(bases)
+		p := g.hostSalt + g.r.Pick(fabHosts) + "/" + g.r.Pick(bases)
 		if g.r.Chance(0.1) {
 			p += "/"
 		}
